@@ -3,10 +3,12 @@ import TongoProofs.Lemmas.CellTable
 import TongoProofs.Lemmas.HashMemo
 import TongoProofs.Lemmas.CellNoPanic
 import TongoProofs.Lemmas.CellErr
+import TongoProofs.Lemmas.CellCursor
 import TongoProofs.C07
 import TongoGen.LevelMask
 import TongoGen.CellDesc
 import TongoProofs.Lemmas.GenTiesA
+import TongoProofs.Lemmas.GenTiesC02
 /-! Property C02 — cell hash, depth and level follow the TON representation-hash definition.
 
 Model: `Tongo.Cell.info` = `newImmutableCell` on a whole tree (`computeInfo`/`levelStep` per cell, line by line),
@@ -189,7 +191,8 @@ theorem short_pruned_reads_padding (H : List UInt8 → List UInt8) :
     rw [if_pos (by decide), if_pos (by decide +kernel)]
     decide +kernel
   have hspec : Spec.hashAt H shortPrunedChild 0 = [] := by
-    simp only [shortPrunedChild, Spec.hashAt, Spec.hashLevel, Spec.hashAtL, Spec.depthAtL, Spec.storedHash, hb2,
+    simp only [shortPrunedChild, Spec.hashAt, Spec.hashLevel, Spec.hashAtL, Spec.depthAtL, Spec.storedHash,
+      packBytes_eq _ _ rfl, hb2,
       show Spec.level 1 = 1 from by decide]
     rw [if_pos (by decide)]
     decide
@@ -238,6 +241,21 @@ theorem hasher_calls_sound (H : List UInt8 → List UInt8) (heap : Memo.Heap) (f
 /-- the empty Hasher (`NewHasher()`) is a valid state -/
 theorem new_hasher_valid (H : List UInt8 → List UInt8) (heap : Memo.Heap) : Memo.StateInv H heap ⟨[], []⟩ :=
   ⟨by intro p i h; simp at h, by intro p s h; simp at h⟩
+
+/-- **The hash does not depend on what has been read.** `Cursor.RCell` is a cell tree in which every node carries
+agent bits' byte-level `BitString` (buffer, length, read cursor — the model of boc/bitString.go proved against the
+ideal bit list in C06) and a reference cursor. After ANY number of reads anywhere in the tree — every read-only
+bit-string method (`ReadBit`, `Skip`, `ReadUint`, `PickUint`, `ReadInt`, `ReadBytes`, `ReadBits`, `ReadRemainingBits`,
+`ReadBigUint/Int`, `ReadUnary`, `ReadLimUint`, `ResetCounter`) with any well-formed argument, successful or failing, and
+any movement of the reference cursors (`NextRef`, `ResetCounters`) — the cell hashing sees (`content`: the bits
+`buf[0..len)`, no cursor) is the same, hence so are all hashes, depths, errors. (The byte-level operations really are
+modelled with their cursor arithmetic; that they leave `buf`/`len` alone is C06's `op_refines`.) -/
+theorem hash_ignores_reads (H : List UInt8 → List UInt8) (a b : Cursor.RCell) (h : Cursor.Reads a b) :
+    Cursor.content a = Cursor.content b ∧
+    Cell.info H (Cursor.content a) = Cell.info H (Cursor.content b) ∧
+    Cell.reprHash H (Cursor.content a) = Cell.reprHash H (Cursor.content b) := by
+  have e := Cursor.reads_content h
+  exact ⟨e, by rw [e], by rw [e]⟩
 
 /-- **The hash is structural.** Two pointers — in any two heaps, with any two valid memo tables — that denote the same
 tree `(type, mask, bits, refs…)` get the same answer: the result is a function of the tree alone (no read cursor, no
@@ -358,6 +376,54 @@ bit length below 2⁶². -/
 theorem gen_d2 (bitLen : Nat) (h : bitLen < 2^62) :
     Gen.CellDesc.d2 (BitVec.ofNat 64 bitLen) = (Tongo.d2 bitLen).toBitVec :=
   GenTies.gen_d2 bitLen h
+
+/-- tie (X4, regenerated from boc/cell.go): the length `(c.BitSize()+7)/8 + 2` of the slice allocated by
+`bocReprWithoutRefs`, REGENERATED on every run (Go's signed division), is the length of the model's `reprNoRefs`
+(two descriptor bytes and the topped-up data), for every bit length below 2⁶². -/
+theorem gen_reprLen (bits : List Bool) (h : bits.length < 2^62) (ty nrefs mask : Nat) :
+    (Tongo.reprNoRefs ty bits nrefs mask).length = (Gen.CellDesc.reprLen (BitVec.ofNat 64 bits.length)).toNat :=
+  GenTies.gen_reprLen bits h ty nrefs mask
+
+/-- tie (X4, regenerated from boc/cell.go): the condition `c.BitSize()%8 != 0` of `bocReprWithoutRefs`, REGENERATED
+on every run (Go's signed remainder), is `n % 8 ≠ 0`, the condition under which the model's `Bits.addTag` adds the
+completion tag. -/
+theorem gen_tagNeeded (n : Nat) (h : n < 2^62) :
+    Gen.CellDesc.tagNeeded (BitVec.ofNat 64 n) = decide (n % 8 ≠ 0) :=
+  GenTies.gen_tagNeeded n h
+
+/-- tie (X4, regenerated from boc/cell.go): the completion tag `1 << (7 - c.BitSize()%8)` OR-ed into the last byte by
+`bocReprWithoutRefs`, REGENERATED on every run, is the byte `2^(7 - n % 8)`. -/
+theorem gen_tagBit (n : Nat) (h : n < 2^62) :
+    Gen.CellDesc.tagBit (BitVec.ofNat 64 n) = BitVec.ofNat 8 (2 ^ (7 - n % 8)) :=
+  GenTies.gen_tagBit n h
+
+/-- tie (X4, regenerated from boc/cell.go): the data part of `bocReprWithoutRefs` —
+`copy(res[2:], buffer); if c.BitSize()%8 != 0 { res[len(res)-1] |= 1 << (7 - c.BitSize()%8) }` with the REGENERATED
+condition and tag byte (`GenTies.orLast` is the `|=` on the last byte), applied to the zero-padded data bytes
+`Bits.bitsToBytes bits` — is the `Bits.toppedUp bits` hashed by the model, for every bit length below 2⁶². -/
+theorem gen_toppedUp (bits : List Bool) (h : bits.length < 2^62) :
+    Bits.toppedUp bits =
+      if Gen.CellDesc.tagNeeded (BitVec.ofNat 64 bits.length) then
+        GenTies.orLast (Bits.bitsToBytes bits) (Gen.CellDesc.tagBit (BitVec.ofNat 64 bits.length))
+      else Bits.bitsToBytes bits :=
+  GenTies.gen_toppedUp bits h
+
+/-- tie (X4, regenerated from boc/immutable_cell.go): the two bytes hashed for a child's depth in `newImmutableCell`
+(`binary.BigEndian.PutUint16(depthRepr[:], uint16(childDepth))`), REGENERATED on every run, are the model's
+`Tongo.be16` (used by `levelStep`), for every non-negative `int` depth. -/
+theorem gen_depthBytes (d : Nat) (h : d < 2^63) :
+    Gen.CellDesc.depthBytes (BitVec.ofNat 64 d) = (Tongo.be16 d).map UInt8.toBitVec :=
+  GenTies.gen_depthBytes d h
+/-- non-vacuity of `hash_ignores_reads`: a cell whose data were read (`ReadUint 5`, then a failing `ReadBits 300`)
+and whose reference cursor moved -/
+example : Cursor.Reads
+    (.mk 0 0 ⟨[0xa5, 0xc0], 16, 10, 0⟩ [.mk 0 0 ⟨[0xe0], 8, 3, 0⟩ [] 0] 0)
+    (.mk 0 0 ((Op.readBits 300).run ((Op.readUint 5).run ⟨[0xa5, 0xc0], 16, 10, 0⟩).2).2
+      [.mk 0 0 ⟨[0xe0], 8, 3, 0⟩ [] 0] 1) :=
+  .step (.bits 0 0 _ _ 0 (.readUint 5) rfl (by decide) (by decide +kernel))
+    (.step (.bits 0 0 _ _ 0 (.readBits 300) rfl (by decide) (by decide +kernel))
+      (.step (.refCursor 0 0 _ _ 0 1) (.refl _)))
+
 /-! Merkle updates with pruned branches on both sides (the `state_update` of a real block): `WFExotic` admits them
 (two refs, `04 hash hash depth depth`, mask = (mask₁ ∨ mask₂) >> 1), so `impl_eq_spec` applies. -/
 
